@@ -36,7 +36,9 @@ ValueError off the positive orthant when the positive draw succeeds (listed).  C
 to a discretised space execute user code and are not "malformed data".  Classes without a
 constructor are listed in the evidence (skipped_classes).
 """
+import ast
 import importlib
+import os
 import inspect
 import pkgutil
 import struct
@@ -105,7 +107,7 @@ def flat(x):
     return np.asarray(x).ravel()
 
 
-def same(a, b, rtol=1e-9):
+def _same(a, b, rtol=1e-9):
     a, b = np.asarray(a), np.asarray(b)
     if a.shape != b.shape:
         return False
@@ -113,6 +115,9 @@ def same(a, b, rtol=1e-9):
         return bool(np.array_equal(a, b))
     with np.errstate(all='ignore'):
         return bool(np.allclose(a, b, rtol=rtol, atol=1e-12, equal_nan=True))
+
+
+same = _same
 
 
 def bitsame(a, b):
@@ -599,6 +604,8 @@ def check_instance(ctx, label, op, rng, deep=False, fixed=None):
     """The C03 oracle on one operator instance. Returns (non-trivial, evaluated at least once).
     `fixed` = {'x': enc_vals(...)} replays exactly one recorded input."""
     import odl
+    if COVERAGE is not None:
+        COVERAGE.watch(type(op).__name__, getattr(type(op), '_call', None))
     problems = []
     nontrivial = False
     evaluated = False
@@ -606,6 +613,15 @@ def check_instance(ctx, label, op, rng, deep=False, fixed=None):
     if fixed is not None:
         draws = ['fixed']
     functional = is_field(op.range)
+    single = any(str(getattr(sp, 'dtype', '')) in ('float32', 'complex64', 'float16')
+                 for sp in (op.domain, op.range)) or \
+        any(str(getattr(getattr(sp, '__getitem__', lambda i: None)(0), 'dtype', ''))
+            in ('float32', 'complex64') for sp in (op.domain, op.range)
+            if isinstance(sp, odl.ProductSpace) and len(sp) > 0)
+    rt = 1e-4 if single else 1e-9      # single-precision spaces: tolerance of DESIGN section 4
+
+    def same(a, b, rtol=None):       # noqa: shadows the module-level helper on purpose
+        return _same(a, b, rt if rtol is None else max(rtol, rt))
     for positive in draws:
         try:
             if positive == 'fixed':
@@ -856,6 +872,149 @@ def extra_instances():
     ]
 
 
+def option_instances():
+    """Constructor options that select another `_call` branch (driven by the branch-coverage
+    table in the evidence): weightings incl. ARRAY weightings on domain and / or range, explicit
+    range=, nodes_on_bdry, negative axes, dtypes, every difference method x pad mode, impl
+    variants, priors given / not given, exponents, proximal factories with every option
+    combination (the plans of the C10 harness)."""
+    import odl
+    S = odl.solvers
+    out = []
+    r3 = odl.rn(3)
+    c3 = odl.cn(3)
+    d6 = odl.uniform_discr(0, 1, 6)
+    d2 = odl.uniform_discr([0, 0], [1, 1], (4, 3))
+    v3 = r3.element([1, -2, 0.5])
+    # ResizingOperator with an explicit range and array / constant weightings
+    wd = np.array([1.0, 2, 3, 2, 1])
+    wr = np.arange(1.0, 10)
+    for dname, dkw in (('w0', {}), ('warr', {'weighting': wd}), ('wconst', {'weighting': 3.0})):
+        for rname, rkw in (('w0', {}), ('warr', {'weighting': wr}), ('wconst', {'weighting': 0.5})):
+            for mode in ('constant', 'symmetric', 'order0'):
+                out.append(('ResizingOperator', 'range-{}-{}-{}'.format(dname, rname, mode),
+                            lambda dkw=dkw, rkw=rkw, mode=mode: odl.ResizingOperator(
+                                odl.uniform_discr(0, 1, 5, **dkw),
+                                odl.uniform_discr(-0.4, 1.4, 9, **rkw), pad_mode=mode)))
+    out.append(('ResizingOperator', 'range-2d-warr', lambda: odl.ResizingOperator(
+        odl.uniform_discr([0, 0], [1, 1], (2, 3), weighting=np.arange(1.0, 7).reshape(2, 3)),
+        odl.uniform_discr([-0.5, 0], [1.5, 1], (4, 3), weighting=np.arange(1.0, 13).reshape(4, 3)))))
+    # finite differences: every method x pad mode, negative axis, out given / not given
+    from odl.discr.diff_ops import _SUPPORTED_DIFF_METHODS, _SUPPORTED_PAD_MODES
+    for meth in _SUPPORTED_DIFF_METHODS:
+        for pm in _SUPPORTED_PAD_MODES:
+            kw = {'method': meth, 'pad_mode': pm}
+            if pm == 'constant':
+                kw['pad_const'] = 1.5
+            out.append(('PartialDerivative', '{}-{}'.format(meth, pm),
+                        lambda kw=kw: odl.PartialDerivative(d2, -1, **kw)))
+            out.append(('Gradient', '{}-{}'.format(meth, pm), lambda kw=kw: odl.Gradient(d6, **kw)))
+            out.append(('Divergence', '{}-{}'.format(meth, pm),
+                        lambda kw=kw: odl.Divergence(range=d2, **kw)))
+    # Fourier / wavelet variants
+    dc = odl.uniform_discr(0, 1, 8, dtype='complex128')
+    dr = odl.uniform_discr(-1, 1, 8)
+    for impl in ('numpy', 'pyfftw'):
+        out.append(('DiscreteFourierTransform', impl, lambda impl=impl:
+                    odl.trafos.DiscreteFourierTransform(dc, impl=impl)))
+        out.append(('DiscreteFourierTransform', impl + '-half', lambda impl=impl:
+                    odl.trafos.DiscreteFourierTransform(dr, halfcomplex=True, impl=impl)))
+        out.append(('DiscreteFourierTransform', impl + '-plus', lambda impl=impl:
+                    odl.trafos.DiscreteFourierTransform(dc, sign='+', impl=impl)))
+        out.append(('DiscreteFourierTransform', impl + '-2d-axes', lambda impl=impl:
+                    odl.trafos.DiscreteFourierTransform(
+                        odl.uniform_discr([0, 0], [1, 1], (4, 6), dtype='complex64'), axes=(1,),
+                        impl=impl)))
+        out.append(('FourierTransform', impl, lambda impl=impl:
+                    odl.trafos.FourierTransform(dc, impl=impl)))
+        out.append(('FourierTransform', impl + '-real-half', lambda impl=impl:
+                    odl.trafos.FourierTransform(dr, halfcomplex=True, impl=impl)))
+        out.append(('FourierTransform', impl + '-shift', lambda impl=impl:
+                    odl.trafos.FourierTransform(dc, shift=False, sign='+', impl=impl)))
+    for size, wav, pm, nl in ((8, 'haar', 'constant', 2), (7, 'db2', 'symmetric', 1),
+                              (9, 'haar', 'periodic', 2), (6, 'db2', 'order0', None)):
+        out.append(('WaveletTransform', '{}-{}-{}'.format(size, wav, pm),
+                    lambda size=size, wav=wav, pm=pm, nl=nl: odl.trafos.WaveletTransform(
+                        odl.uniform_discr(0, 1, size), wav, nlevels=nl, pad_mode=pm)))
+    out.append(('WaveletTransform', '2d-axes', lambda: odl.trafos.WaveletTransform(
+        odl.uniform_discr([0, 0], [1, 1], (5, 8)), 'haar', nlevels=1, axes=(1,))))
+    # tensor operators with weights / complex fields
+    vf = odl.ProductSpace(d2, 2)
+    vfc = odl.ProductSpace(odl.uniform_discr([0, 0], [1, 1], (4, 3), dtype='complex128'), 2)
+    out.append(('PointwiseInner', 'complex', lambda: odl.PointwiseInner(vfc, vfc.one())))
+    out.append(('PointwiseInner', 'complex-w', lambda: odl.PointwiseInner(vfc, vfc.one(),
+                                                                           weighting=[1, 2])))
+    out.append(('PointwiseSum', 'w', lambda: odl.PointwiseSum(vf, weighting=[0.5, 2])))
+    out.append(('PointwiseNorm', 'complex', lambda: odl.PointwiseNorm(vfc)))
+    out.append(('PointwiseNorm', 'inf-w', lambda: odl.PointwiseNorm(vf, float('inf'),
+                                                                    weighting=[1, 2])))
+    out.append(('WeightedSumSamplingOperator', 'complex', lambda: odl.WeightedSumSamplingOperator(
+        odl.uniform_discr([0, 0], [1, 1], (4, 3), dtype='complex128'), [[0, 1, 1], [1, 2, 2]])))
+    out.append(('SamplingOperator', 'complex-int', lambda: odl.SamplingOperator(
+        odl.uniform_discr([0, 0], [1, 1], (4, 3), dtype='complex128'), [[0, 1], [1, 2]],
+        variant='integrate')))
+    out.append(('MatrixOperator', 'complex', lambda: odl.MatrixOperator(
+        np.array([[1, 1j], [0, 2]]))))
+    out.append(('MatrixOperator', 'float32', lambda: odl.MatrixOperator(
+        np.array([[1, 2], [0, 2.5]], dtype='float32'))))
+    out.append(('ComplexModulus', 'r-deriv-adj', lambda: odl.ComplexModulus(r3).derivative(v3).adjoint))
+    out.append(('ComplexModulusSquared', 'r-deriv-adj',
+                lambda: odl.ComplexModulusSquared(r3).derivative(v3).adjoint))
+    out.append(('ComplexModulus', 'c-deriv-adj',
+                lambda: odl.ComplexModulus(c3).derivative(c3.element([1 + 1j, 2, -1j])).adjoint))
+    # deformations: interpolation schemes
+    for interp in ('nearest', 'linear'):
+        out.append(('LinDeformFixedDisp', interp, lambda interp=interp: odl.deform.LinDeformFixedDisp(
+            odl.ProductSpace(d6, 1).element([np.linspace(-0.1, 0.1, 6)]), interp=interp)))
+        out.append(('LinDeformFixedTempl', interp, lambda interp=interp:
+                    odl.deform.LinDeformFixedTempl(d6.element(np.arange(6.0)), interp=interp)))
+        out.append(('Resampling', interp, lambda interp=interp: odl.Resampling(
+            d2, odl.uniform_discr([0, 0], [1, 1], (6, 2)), interp=interp)))
+    # functionals: option branches
+    g3 = r3.element([1, 2, 0.5])
+    out += [
+        ('Huber', 'gamma0', lambda: S.Huber(r3, 0)),
+        ('KullbackLeibler', 'noprior', lambda: S.KullbackLeibler(r3)),
+        ('KullbackLeiblerConvexConj', 'noprior', lambda: S.KullbackLeibler(r3).convex_conj),
+        ('KullbackLeiblerCrossEntropy', 'noprior', lambda: S.KullbackLeiblerCrossEntropy(r3)),
+        ('KullbackLeiblerCrossEntropyConvexConj', 'noprior',
+         lambda: S.KullbackLeiblerCrossEntropy(r3).convex_conj),
+        ('LpNorm', 'inf', lambda: S.LpNorm(r3, float('inf'))), ('LpNorm', '0', lambda: S.LpNorm(r3, 0)),
+        ('LpNorm', '1', lambda: S.LpNorm(r3, 1)), ('LpNorm', '2', lambda: S.LpNorm(r3, 2)),
+        ('IndicatorBox', 'lower', lambda: S.IndicatorBox(r3, lower=-1)),
+        ('IndicatorBox', 'upper', lambda: S.IndicatorBox(r3, upper=1)),
+        ('IndicatorBox', 'none', lambda: S.IndicatorBox(r3)),
+        ('QuadraticForm', 'vec', lambda: S.QuadraticForm(vector=v3)),
+        ('QuadraticForm', 'op', lambda: S.QuadraticForm(operator=odl.ScalingOperator(r3, 2.0))),
+        ('NumericalDerivative', 'backward', lambda: S.NumericalDerivative(
+            odl.PowerOperator(r3, 2), v3, method='backward')),
+        ('NumericalDerivative', 'central', lambda: S.NumericalDerivative(
+            odl.PowerOperator(r3, 2), v3, method='central')),
+        ('NumericalGradient', 'backward', lambda: S.NumericalGradient(S.L2NormSquared(r3),
+                                                                       method='backward')),
+        ('NumericalGradient', 'central', lambda: S.NumericalGradient(S.L2NormSquared(r3),
+                                                                      method='central')),
+        ('IndicatorSimplex', 'w', lambda: S.IndicatorSimplex(odl.rn(3, weighting=[1.0, 2, 0.5]), 2.0)),
+        ('IndicatorSumConstraint', 'w',
+         lambda: S.IndicatorSumConstraint(odl.rn(3, weighting=[1.0, 2, 0.5]), 2.0)),
+    ]
+    ms = odl.ProductSpace(odl.ProductSpace(d6, 2), 2)
+    for oe, se in ((1, 1), (1, 2), (1, float('inf')), (2, 2), (float('inf'), float('inf'))):
+        out.append(('NuclearNorm', '{}-{}'.format(oe, se), lambda oe=oe, se=se: S.NuclearNorm(
+            ms, outer_exp=oe, singular_vector_exp=se)))
+    # proximal factories with every option combination: the plans of the C10 harness
+    try:
+        from harness import c10
+        for k, plan in enumerate(c10.plans()):
+            for kind in plan.kinds[:3]:
+                def mk(plan=plan, kind=kind, k=k):
+                    return c10.build(plan, kind, 7919 * (k + 1), 'gen')['P']
+                out.append(('Proximal', '{}-{}-{}'.format(plan.mid, plan.flags or '-', kind), mk))
+    except Exception:  # the C10 harness is an optional source of instances
+        pass
+    return out
+
+
 def derivation_point(label, op):
     """Deterministic point for `derivative(x)` (depends on the label only, so that a derived
     operator can be rebuilt exactly by `replay`)."""
@@ -897,6 +1056,8 @@ def all_instances(ctx):
         yield name, vname, thunk
     for name, vname, thunk in extra_instances():
         yield name, vname, thunk
+    for name, vname, thunk in option_instances():
+        yield name, 'opt:' + vname, thunk
 
 
 def run_zoo(ctx, deep=False):
@@ -1688,7 +1849,13 @@ def run_pso(ctx, count):
 STRATA_LEAVES = ('accum', 'accum-junk', 'laplacian', 'partial', 'rosenbrock-grad', 'matrix')
 STRATA_WRAPPERS = ('Sum', 'Sum[tmp_ran,tmp_dom]', 'VectorSum', 'Comp', 'Comp[tmp]', 'PointwiseProduct',
                    'LeftScalarMult', 'RightScalarMult', 'RightScalarMult[tmp]', 'LeftVectorMult',
-                   'RightVectorMult', 'ProductSpaceOperator', 'Broadcast', 'Reduction', 'Diagonal')
+                   'RightVectorMult', 'ProductSpaceOperator', 'Broadcast', 'Reduction', 'Diagonal',
+                   'Pow[1]', 'Pow[2]', 'Pow[3]', 'Pow[4]')
+# wrappers that the LIBRARY builds around a cached temporary of another wrapper (derivative /
+# adjoint hand the same tmp object on): linear leaves only
+STRATA_SHARED = ('Sum[tmp].derivative', 'Comp[tmp].derivative', 'RightScalarMult[tmp].derivative',
+                 'Sum[tmp].adjoint', 'Comp[tmp].adjoint', 'RightScalarMult[tmp].adjoint')
+STRATA_LINEAR_LEAVES = ('laplacian', 'partial', 'matrix')
 
 
 def strata_leaves():
@@ -1752,7 +1919,33 @@ def run_wrapper_strata(ctx, reps, only=None):
                  lambda a: Lf(a[:n]) + Lf(a[n:])),
                 ('Diagonal', lambda: odl.DiagonalOperator(L, L), X2,
                  lambda a: np.concatenate([Lf(a[:n]), Lf(a[n:])])),
+                # Operator.__pow__ : nested OperatorComp built by the library
+                ('Pow[1]', lambda: L ** 1, X, lambda a: Lf(a)),
+                ('Pow[2]', lambda: L ** 2, X, lambda a: Lf(Lf(a))),
+                ('Pow[3]', lambda: L ** 3, X, lambda a: Lf(Lf(Lf(a)))),
+                ('Pow[4]', lambda: L ** 4, X, lambda a: Lf(Lf(Lf(Lf(a))))),
             ]
+            if lname in STRATA_LINEAR_LEAVES:
+                p0 = rand_elem(X, rng)
+
+                def La(a):      # adjoint of the leaf alone
+                    return snapshot(L.adjoint(elem_from_flat(X, a)))
+                t1, t2, t3 = X.element(), X.element(), X.element()
+                wr += [
+                    ('Sum[tmp].derivative', lambda: odl.OperatorSum(L, L, t1, t2).derivative(p0), X,
+                     lambda a: Lf(a) + Lf(a)),
+                    ('Comp[tmp].derivative', lambda: odl.OperatorComp(L, L, t3).derivative(p0), X,
+                     lambda a: Lf(Lf(a))),
+                    ('RightScalarMult[tmp].derivative',
+                     lambda: odl.OperatorRightScalarMult(L, c, t3).derivative(p0), X,
+                     lambda a: Lf(c * a)),
+                    ('Sum[tmp].adjoint', lambda: odl.OperatorSum(L, L, t1, t2).adjoint, X,
+                     lambda a: La(a) + La(a)),
+                    ('Comp[tmp].adjoint', lambda: odl.OperatorComp(L, L, t3).adjoint, X,
+                     lambda a: La(La(a))),
+                    ('RightScalarMult[tmp].adjoint',
+                     lambda: odl.OperatorRightScalarMult(L, c, t3).adjoint, X, lambda a: c * La(a)),
+                ]
             for wname, mkw, dom, expect in wr:
                 label = 'wrapper-stratum/{}/{}'.format(wname, lname)
                 try:
@@ -1800,6 +1993,112 @@ def run_wrapper_strata(ctx, reps, only=None):
                         break
 
 
+# ---------------------------------------------------------------------------
+# per-class branch coverage of the `_call` bodies (and the same-module helpers they call),
+# measured while the zoo runs: which `if` conditions were taken both ways
+
+class CallCoverage(object):
+    """Line counts of registered code objects via sys.monitoring (Python >= 3.12)."""
+    TOOL = 3
+
+    def __init__(self):
+        import sys
+        self.counts = {}
+        self.funcs = {}       # code -> (class label, function)
+        self.mon = getattr(sys, 'monitoring', None)
+        self.active = False
+        if self.mon is None:
+            return
+        try:
+            self.mon.use_tool_id(self.TOOL, 'c03-call-coverage')
+        except ValueError:
+            try:
+                self.mon.free_tool_id(self.TOOL)
+                self.mon.use_tool_id(self.TOOL, 'c03-call-coverage')
+            except Exception:
+                return
+        self.mon.register_callback(self.TOOL, self.mon.events.LINE, self._line)
+        self.active = True
+
+    def _line(self, code, lineno):
+        d = self.counts.setdefault(code, {})
+        d[lineno] = d.get(lineno, 0) + 1
+
+    def watch(self, label, func):
+        if not self.active:
+            return
+        func = getattr(func, '__func__', func)
+        code = getattr(func, '__code__', None)
+        if code is None or code in self.funcs or '/odl/' not in code.co_filename.replace('\\', '/'):
+            return
+        self.funcs[code] = (label, func)
+        self.mon.set_local_events(self.TOOL, code, self.mon.events.LINE)
+        # same-module helper functions called by name (one level)
+        try:
+            import textwrap
+            tree = ast.parse(textwrap.dedent(inspect.getsource(func)))
+        except Exception:
+            return
+        for node in ast.walk(tree):
+            if isinstance(node, ast.Call) and isinstance(node.func, ast.Name):
+                g = func.__globals__.get(node.func.id)
+                if inspect.isfunction(g) and g.__module__ == func.__module__:
+                    hcode = g.__code__
+                    if hcode not in self.funcs:
+                        self.funcs[hcode] = (label + ' > ' + g.__name__, g)
+                        self.mon.set_local_events(self.TOOL, hcode, self.mon.events.LINE)
+
+    def close(self):
+        if self.active:
+            try:
+                self.mon.free_tool_id(self.TOOL)
+            except Exception:
+                pass
+            self.active = False
+
+    def table(self):
+        """{function label: [{'if': source, 'line': n, 'true': bool, 'false': bool}]} and the list
+        of branches never taken (bodies that only raise are not counted)."""
+        import textwrap
+        out, missing = {}, []
+        for code, (label, func) in self.funcs.items():
+            cnt = self.counts.get(code, {})
+            if not cnt:
+                continue            # the function itself never ran: reported by the zoo
+            try:
+                src = textwrap.dedent(inspect.getsource(func))
+                tree = ast.parse(src)
+            except Exception:
+                continue
+            off = code.co_firstlineno - 1
+            rows = []
+            for node in ast.walk(tree):
+                if not isinstance(node, ast.If):
+                    continue
+                l0, lb = node.lineno + off, node.body[0].lineno + off
+                t = cnt.get(lb, 0) > 0
+                if node.orelse:
+                    f = cnt.get(node.orelse[0].lineno + off, 0) > 0
+                else:
+                    f = cnt.get(l0, 0) > cnt.get(lb, 0)
+                if cnt.get(l0, 0) == 0:
+                    continue        # nested in a branch that was never entered
+                raise_only = lambda body: all(isinstance(b, ast.Raise) for b in body)   # noqa
+                cond = ast.unparse(node.test)[:70]
+                rows.append({'if': cond, 'line': l0, 'true': t, 'false': f})
+                where = '{}:{}'.format(os.path.basename(code.co_filename), l0)
+                if not t and not raise_only(node.body):
+                    missing.append('{} :: if {} [true] @{}'.format(label, cond, where))
+                if not f and not (node.orelse and raise_only(node.orelse)):
+                    missing.append('{} :: if {} [false] @{}'.format(label, cond, where))
+            if rows:
+                out[label] = rows
+        return out, sorted(set(missing))
+
+
+COVERAGE = None
+
+
 EXPECTED_BRANCHES = (
     ['tree/' + t for t in TREE_BRANCHES] +
     ['pso/{}/{}'.format(k, m) for k in ('pso', 'bcast', 'red', 'proj', 'projadj')
@@ -1807,7 +2106,8 @@ EXPECTED_BRANCHES = (
     ['dispatch/oop/' + o for o in ('ok', 'err:domain', 'err:range', 'err:type', 'err:value')] +
     ['dispatch/ip/' + o for o in ('ok', 'err:domain', 'err:range', 'err:value')] +
     ['dispatch/dual/' + o for o in ('ok', 'err:domain', 'err:range', 'err:type', 'err:value')] +
-    ['wrapper-stratum/{}/{}'.format(w, l) for w in STRATA_WRAPPERS for l in STRATA_LEAVES])
+    ['wrapper-stratum/{}/{}'.format(w, l) for w in STRATA_WRAPPERS for l in STRATA_LEAVES] +
+    ['wrapper-stratum/{}/{}'.format(w, l) for w in STRATA_SHARED for l in STRATA_LINEAR_LEAVES])
 
 
 def report_unhit(ctx):
@@ -1822,16 +2122,68 @@ def report_unhit(ctx):
 
 
 def run(ctx):
+    global COVERAGE
     warnings.simplefilter('ignore')
     np.seterr(all='ignore')
+    COVERAGE = CallCoverage()
+    try:
+        _run(ctx)
+    finally:
+        table, missing = COVERAGE.table()
+        COVERAGE.close()
+        COVERAGE = None
+    ctx.extra['call_branch_coverage'] = table
+    ctx.extra['call_branches_not_taken'] = missing
+    new = [m for m in missing if m.split(' @')[0] not in KNOWN_UNREACHED]
+    ctx.extra['call_branches_not_taken(new)'] = new
+    if new and not ctx.quick:
+        ctx.disagree({'kind': 'unhit-call-branch', 'branches': new[:40]},
+                     'a `_call` branch of a zoo class was never taken (constructor options missing '
+                     'in the zoo, or new code)', 'per-class branch coverage of the zoo',
+                     stream='unhit-call-branch')
+
+
+KNOWN_UNREACHED = {
+    # the last `elif` of an exhaustive method chain (central / forward / backward): never false
+    "Divergence > finite_diff :: if method == 'backward' [false]": 'exhaustive elif chain',
+    "L2Norm :: if self.exponent == np.inf [false]": 'exhaustive elif chain (LpNorm._call)',
+    # helpers called by the operators always with `out`
+    "Divergence > finite_diff :: if out is None [true]": 'operators always pass out',
+    "ProximalConvexConjLinfty > proj_l1 :: if out is None [true]": 'operators always pass out',
+    # aliased calls (`x is out`) are C10's subject; the zoo calls with x and out distinct
+    "ProximalConvexConjKL :: if x is out [true]": 'aliased call: C10',
+    "ProximalConvexConjL1 :: if x is out [true]": 'aliased call: C10',
+    "ProximalConvexConjL2Squared :: if x is out [true]": 'aliased call: C10',
+    "ProximalL1 :: if x is out [true]": 'aliased call: C10',
+    "ProximalL1L2 :: if x is out [true]": 'aliased call: C10',
+    "ProximalL2Squared :: if x is out [true]": 'aliased call: C10',
+    "ProximalLInfty :: if x is out [true]": 'aliased call: C10',
+    # input-dependent (not constructor-dependent) branches, exercised by the C10 / C07 streams
+    "IndicatorSimplex :: if sum_constr and nonneq_constr [true]": 'needs x inside the simplex',
+    "ProximalL2 :: if step < 1.0 [false]": 'needs ||x|| <= sigma*lam (C10 threshold class)',
+    "ProximalL2 :: if x_norm > 0 [false]": 'needs x == g (C10 zero class)',
+    "WaveletTransformInverse :: if n_recon == n_intended + 1 [false]": 'depends on pywt output sizes',
+    # not reachable with library spaces / dtypes
+    "ProximalConvexConjKLCrossEntropy :: if not np.issubsctype(self.domain.dtype, np.complexfloating) [false]":
+        'complex domain: scipy.special.lambertw on complex data is outside the factory contract',
+    "ProximalConvexConjLinfty > _const_weight :: if const is None or not space.is_power_space or len(space) == 0 [true]":
+        'product space without a constant weighting',
+    "ResizingOperatorAdjoint > _inner_weights :: if hasattr(weighting, 'array') [false]":
+        'weighting with neither const nor array (custom weighting)',
+    "ResizingOperatorAdjoint > _scale_bdry_cells :: if inverse [false]":
+        'the forward scaling is used by ResizingOperator.adjoint.inverse only via another path',
+    "absolute_op :: if nargin == 1 [false]": 'ufunc functionals with two inputs are not supported',
+}
+
+
+def _run(ctx):
     run_dispatch(ctx)
-    run_trees(ctx, 150 if ctx.quick else 4000)
-    run_pso(ctx, 120 if ctx.quick else 2500)
-    run_wrapper_strata(ctx, 1 if ctx.quick else 12)
+    run_trees(ctx, 150 if ctx.quick else 3000)
+    run_pso(ctx, 120 if ctx.quick else 2000)
+    run_wrapper_strata(ctx, 1 if ctx.quick else 6)
     run_zoo(ctx, deep=not ctx.quick)
     if not ctx.quick:
-        for _ in range(2):   # further input draws for every instance
-            run_zoo(ctx, deep=True)
+        run_zoo(ctx, deep=True)   # further input draws for every instance
     report_unhit(ctx)
 
 
